@@ -93,8 +93,9 @@ CLAIMS = {
     },
     "C10": {
         "level": "Store level, enumerated histories. Solver-decided on the real Store::add / clear / top_ixs / TrigramIndex::add / prepare: after each of the "
-                 "listed operation sequences (add, clear, limit change, marker change, empty-query and one-letter lookups, up to 5 operations) the two stateful "
-                 "inputs of Store::search equal those of a freshly built store, for ALL ratings and ids. Titles are concrete one/two-letter words.",
+                 "listed operation sequences (quick: hand-picked histories of up to 5 operations; thorough: additionally EVERY sequence of 1-3 operations over "
+                 "small operation alphabets, 220 generated histories) the two stateful inputs of Store::search equal those of a freshly built store, for ALL "
+                 "ratings and ids. Titles are concrete one/two-letter words.",
         "note": STD_NOTE + " Two genuine defects were found this way and repaired in /repo (f3dba01, ece0e74). Histories are enumerated, not exhaustive; "
                            "Store::search itself is not executed.",
     },
